@@ -391,34 +391,40 @@ func runC03(c *Ctx) {
 }
 
 // derivesFromField: v is obtained from a load of field fv by field
-// selections / loads only (e.g. conn.io.Reader).
+// selections / loads / moves only (e.g. conn.io.Reader).
 func (c *Ctx) derivesFromField(v ssa.Value, fv *types.Var) bool {
-	for i := 0; i < 8 && v != nil; i++ {
-		if f, _ := loadedField(v); f == fv {
+	return c.derivesFromFieldRec(v, fv, map[ssa.Value]bool{}, 0)
+}
+
+func (c *Ctx) derivesFromFieldRec(v ssa.Value, fv *types.Var, seen map[ssa.Value]bool, depth int) bool {
+	if v == nil || seen[v] || depth > 12 {
+		return false
+	}
+	seen[v] = true
+	if f, _ := loadedField(v); f == fv {
+		return true
+	}
+	switch t := v.(type) {
+	case *ssa.UnOp:
+		if t.Op != token.MUL {
+			return false
+		}
+		if c.derivesFromFieldRec(t.X, fv, seen, depth+1) {
 			return true
 		}
-		switch t := v.(type) {
-		case *ssa.UnOp:
-			if t.Op != token.MUL {
-				return false
-			}
-			v = t.X
-		case *ssa.FieldAddr:
-			if f, _ := fieldOf(t); f == fv {
-				return true
-			}
-			v = t.X
-		case *ssa.Field:
-			v = t.X
-		default:
-			for _, o := range c.Origins(v) {
-				if o != v {
-					if c.derivesFromField(o, fv) {
-						return true
-					}
-				}
-			}
-			return false
+	case *ssa.FieldAddr:
+		if f, _ := fieldOf(t); f == fv {
+			return true
+		}
+		return c.derivesFromFieldRec(t.X, fv, seen, depth+1)
+	case *ssa.Field:
+		return c.derivesFromFieldRec(t.X, fv, seen, depth+1)
+	case *ssa.Const, *ssa.Alloc, *ssa.Call, *ssa.BinOp, *ssa.Global, *ssa.Function, *ssa.MakeClosure:
+		return false
+	}
+	for _, o := range c.Origins(v) {
+		if o != v && c.derivesFromFieldRec(o, fv, seen, depth+1) {
+			return true
 		}
 	}
 	return false
